@@ -5,8 +5,11 @@ PROP = {
                   "BOLT-7 reference validity predicate; zombie-index monitor judged by a harness-side "
                   "resurrection reference (direction owner x stored key x prune window); cross-direction workload "
                   "(authentic updates over the channel-flag / message-flag space x timestamp classes relative to each "
-                  "direction's stored policy) judged by the same reference predicate and oracles"),
-    "level_text": ("256 (quick) / 14000 (thorough) PRNG scenarios of 40 remote gossip messages each, followed by a zombie phase and a cross-direction phase (valid channel_announcement / channel_update / "
+                  "direction's stored policy) judged by the same reference predicate and oracles; restart dimension (the whole "
+                  "stack re-created on the same database with cold / tiny caches at PRNG points of every phase, plus an "
+                  "after-restart replay phase with repeated deliveries of stale / equal / fresh authentic updates), again "
+                  "judged by the same reference predicate and oracles"),
+    "level_text": ("256 (quick) / 14000 (thorough) PRNG scenarios of 40 remote gossip messages each, followed by a zombie phase, a cross-direction phase and an after-restart replay phase, with node restarts at PRNG points inside all of them (valid channel_announcement / channel_update / "
                    "node_announcement sets from PRNG keys, every single-field corruption with and without re-signing, "
                    "single-byte corruptions of the signed region and of the signatures, replays, orderings incl. "
                    "update-before-channel and not-yet-mined funding blocks, spent / mismatching / missing funding "
@@ -45,7 +48,36 @@ PROP = {
                    "consistent fields; oracles graph_unchanged_unless_valid, not_relayed_unless_valid, applied_matches_message). "
                    "Counters x_stale_own_fresh_oth_d<dir>_<flag class> (stale for its own direction although newer than the other "
                    "direction's stored policy, or the other has none) and x_fresh_own_stale_oth_* (the mirror case) have floors per "
-                   "direction and flag class."),
+                   "direction and flag class. "
+                   "Restart dimension (own PRNG stream derived from (seed, case), so the message streams of the phases are unchanged): "
+                   "before a step of the catalogue phase (1 in 20), of the zombie phase (1 in 14) and before an update of the "
+                   "cross-direction phase (1 in 9) gossiper + builder + graph store are stopped and re-created on the SAME "
+                   "database: every in-memory structure starts empty (graph store reject cache / channel cache / graph cache, "
+                   "builder, gossiper premature + future + reject caches and ban scores); PRNG: the database file is closed and "
+                   "re-opened or kept open, and the store gets lnd's default cache sizes or WithRejectCacheSize / "
+                   "WithChannelCacheSize of 1..3 entries, so that lookups of other channels evict (1 scenario in 4 runs with such "
+                   "tiny caches from its first message, i.e. eviction without any restart). The restart itself is an environment "
+                   "action (the snapshot after it is compared with the one before as a diagnostic only). "
+                   "After-restart replay phase (2 rounds per scenario, own PRNG stream, after the cross-direction phase): a channel is "
+                   "announced (or reused), both directions get a stored policy at PRNG timestamps (direction 0 older by 1e4..5e6 s "
+                   "3/8, newer 2/8, equal 1/8, only one direction 2/8), THE NODE IS RESTARTED, then 6 authentic channel_updates of "
+                   "the cross product (either direction; timestamp older than both stored ones / strictly between them / equal to "
+                   "own / equal to the other direction's / +-1 around either / newer than both; flag space as in the cross-direction "
+                   "phase) are delivered 1, 2 or 3 times each - identical bytes, every delivery from a peer identity of its own - "
+                   "interleaved (2 in 5 deliveries) with a duplicate channel_announcement of the same channel, a node announcement "
+                   "of the catalogue, a lookup of ANOTHER channel (duplicate announcement, or a stale / equal / arbitrary update) that "
+                   "competes for the tiny caches, or a further restart. No additional oracle and no changed verdict: every delivery goes "
+                   "through the same per-message judgement, the reference model being fed by what was really applied (an update "
+                   "that is not strictly newer than the stored policy of ITS direction must leave the snapshot unchanged and must not "
+                   "be relayed, on the 1st, 2nd and 3rd delivery alike). The graph snapshot additionally holds every policy as "
+                   "served by ChanUpdatesInHorizon - the read path behind gossip queries, which goes through the store's channel "
+                   "cache - under keys hz/<scid>/<dir>; such a key may change exactly when the pol/ key of the same channel and "
+                   "direction may. Counters with floors: restarts (per phase, db file re-opened, tiny reject / channel cache), "
+                   "post_restart_deliveries, post_restart_repeated_deliveries, repeated_stale_deliveries (an authentic not-newer "
+                   "update whose identical bytes were already delivered since the last restart; per direction; "
+                   "repeated_stale_gt_oth_d<dir> = additionally newer than the OTHER direction's stored policy), "
+                   "stale_on_first_lookup_after_restart / stale_after_lookup_after_restart, r_* (rounds, layouts, items per class, "
+                   "interleavings)."),
     "level_note": ("Sampled, not exhaustive. Gossip v1 only: the pinned tree rejects v2 messages on the remote path "
                    "(probed at run time, see notes.gossip_versions). 'valid => applied/relayed' is a diagnostic only "
                    "(keep-alive suppression, zombie/closed-scid caches, rate limits are legitimate) - also for the cross-direction "
@@ -59,6 +91,17 @@ PROP = {
                    "reading between submit and quiescence and gives no verdict inside that bracket. Field consistency of a "
                    "resurrecting update is not demanded (processZombieUpdate checks only the signature; the fields are "
                    "checked when the stashed update is replayed). 'authentic fresh update => resurrected' is a diagnostic. "
+                   "Restarts are clean shutdowns (Stop of gossiper, builder, graph store; optionally close + re-open of the bbolt file), not "
+                   "crashes; the waiting-proof store and the model chain survive, everything else in memory is lost - including updates "
+                   "the old gossiper had stashed as premature / for a future height, which is why fewer of those are re-processed than "
+                   "without restarts (floors future_reinjected, z_readded_with_stashed_update lowered accordingly). A graph that "
+                   "differs across a restart is a diagnostic (restart_changed_graph), not a verdict: the statement speaks about "
+                   "messages. Which entry a full reject / channel cache evicts is lnd's choice (Go map order), so with caches of 2..3 "
+                   "entries the cache state is not a function of the seed; verdicts do not depend on it on correct code. lnd's "
+                   "keep-alive / rate-limit / recently-rejected handling of repeated deliveries stays on the 'valid => applied' side "
+                   "(diagnostic only); repeats come from distinct peer identities in the replay phase so that the gossiper's per-peer "
+                   "reject cache does not swallow them. The hz/ view records policies only (the channel cache's copies of the node "
+                   "announcements are not judged). "
                    "Pruning is driven by the graph-DB calls of pruneZombieChans, not by the builder's ticker. Taproot (P2TR) funding outputs are "
                    "not generated. Wrong chain_hash with otherwise valid content is outside the statement (diagnostic). "
                    "channel_update wire bytes/digests come from a harness-side encoder (lnwire's ChannelUpdate1.Encode drops "
@@ -71,13 +114,16 @@ PROP = {
                    "not-signed-by-direction-owner:resurrected+cached; findings/C20_strict_zombie_wrong_key_*)."),
     "design_ref": "DESIGN.md §3 C20",
     "rule": ("One case = one scenario (own keys, own model chain, own gossiper+builder+graph DB) of 40 steps plus 28 zombie-phase steps "
-             "plus 2 cross-direction rounds (channel announcement, 0-2 layout updates, 12 flag x timestamp-class updates each); "
+             "plus 2 cross-direction rounds (channel announcement, 0-2 layout updates, 12 flag x timestamp-class updates each) plus 2 "
+             "after-restart replay rounds (channel announcement, 0-2 layout updates, restart, 6 updates x 1-3 deliveries with interleaved "
+             "lookups), with restarts of the whole stack on the same database at PRNG points; "
              "evaluations = remote messages judged. A step is non-trivial when it is a byte corruption, or the "
              "reference judged it valid, or lnd changed the graph / returned an error / cached it; distinct = "
              "distinct (catalogue label, reference verdict, graph changed, lnd error, cached) classes plus distinct "
              "(message type, corrupted byte offset) pairs, plus distinct zombie classes (route, stored-key shape, "
              "signer, direction bit, reference verdict, resurrected, cached); the cross-direction labels (direction, channel-flag "
-             "class, message-flag class, timestamp class, signer) are catalogue labels."),
+             "class, message-flag class, timestamp class, signer) are catalogue labels, as are the replay-phase labels (r.*, .dupN = N-th "
+             "delivery of identical bytes); distinct restart classes (phase, db file re-opened, cache sizes, graph differs) are counted too."),
     "assumptions": ["messages reach the gossiper as decoded lnwire objects (undecodable byte corruptions are skipped and counted)",
                     "no channel is closed on chain during a scenario (inert chain view)",
                     "rate limiter disabled (burst 2^30) so that freshness, not rate limiting, decides"],
@@ -89,12 +135,12 @@ PROP = {
         "watchdog": {"quick": 900, "thorough": 5400},
         "floors": {"quick": {"msgs": 4900, "oracle_graph_evals": 5000, "oracle_bcast_evals": 1000,
                              "ref_invalid": 3700, "applied_ca": 400, "applied_cu": 350, "applied_na": 270,
-                             "premature_reprocessed": 60, "future_reinjected": 12,
+                             "premature_reprocessed": 60, "future_reinjected": 7,
                              # zombie phase (shape x signer x direction; ~half of the minimum over seeds 1-5)
                              "oracle_zombie_evals": 6300, "z_cu": 2300, "z_made": 560, "z_may_resurrect": 245,
                              "z_must_reject": 2050, "z_rejected_ok": 2050, "z_resurrected_ok": 210,
                              "z_fresh_yes": 1400, "z_fresh_no": 920, "z_readded_after_resurrection": 79,
-                             "z_readded_with_stashed_update": 73, "z_made_direct_both": 80,
+                             "z_readded_with_stashed_update": 52, "z_made_direct_both": 80,
                              "z_made_direct_only1": 79, "z_made_direct_only2": 80, "z_made_direct_none": 21,
                              "z_doc_prune_both": 144, "z_doc_prune-strict_only1": 59,
                              "z_doc_prune-strict_only2": 58, "z_both_node1_d0": 118, "z_both_node1_d1": 118,
@@ -129,14 +175,33 @@ PROP = {
                              "x_layout_d0-older": 60, "x_layout_d0-newer": 57, "x_layout_equal": 21,
                              "x_valid_applied": 950, "x_valid_applied_plain": 185, "x_valid_applied_dis": 320,
                              "x_valid_applied_unk": 180, "x_valid_applied_dis+unk": 240,
-                             "x_invalid_refused_ok": 1950},
+                             "x_invalid_refused_ok": 1950,
+                             # restart dimension + after-restart replay phase (~half of the minimum over seeds 1-5)
+                             "restarts": 1100, "restarts_catalogue": 230, "restarts_zombie": 240,
+                             "restarts_xdir": 300, "restarts_replay": 250, "restarts_replay-mid": 110,
+                             "restarts_db_file_reopened": 580, "restarts_tiny_reject_cache": 480,
+                             "restarts_tiny_channel_cache": 450, "post_restart_deliveries": 14000,
+                             "post_restart_repeated_deliveries": 1800, "post_restart_stale": 3400,
+                             "repeated_stale_deliveries": 1100, "repeated_stale_deliveries_d0": 550,
+                             "repeated_stale_deliveries_d1": 560, "repeated_stale_gt_oth_d0": 220,
+                             "repeated_stale_gt_oth_d1": 280, "repeated_stale_tiny_reject_cache": 450,
+                             "stale_after_lookup_after_restart": 2900, "stale_gt_oth_after_lookup_d0": 520,
+                             "stale_gt_oth_after_lookup_d1": 640, "stale_on_first_lookup_after_restart": 440,
+                             "tiny_reject_cache_deliveries": 6300, "tiny_channel_cache_deliveries": 6100,
+                             "scenarios_tiny_caches_from_start": 28, "r_rounds": 250, "r_cu": 3000, "r_items": 1500,
+                             "r_items_stale": 470, "r_items_equal": 190, "r_items_fresh": 470, "r_dup_ca": 350,
+                             "r_na": 230, "r_other_channel_lookup": 450, "r_layout_d0-older": 94,
+                             "r_layout_d0-newer": 58, "r_layout_equal": 32, "r_layout_only0": 26,
+                             "r_layout_only1": 22, "r_cu_stale_d0": 410, "r_cu_stale_d1": 480, "r_cu_equal_d0": 180,
+                             "r_cu_equal_d1": 180, "r_cu_fresh_d0": 510, "r_cu_fresh_d1": 440,
+                             "hz_changes_allowed": 3100},
                    "thorough": {"msgs": 270000, "oracle_graph_evals": 280000, "oracle_bcast_evals": 55000,
                                 "ref_invalid": 210000, "applied_ca": 20000, "applied_cu": 19000,
-                                "applied_na": 15000, "premature_reprocessed": 3800, "future_reinjected": 1000,
+                                "applied_na": 15000, "premature_reprocessed": 3800, "future_reinjected": 380,
                                 "oracle_zombie_evals": 315000, "z_cu": 115000, "z_made": 28000,
                                 "z_may_resurrect": 12250, "z_must_reject": 102500, "z_rejected_ok": 102500,
                                 "z_resurrected_ok": 10500, "z_fresh_yes": 70000, "z_fresh_no": 46000,
-                                "z_readded_after_resurrection": 3950, "z_readded_with_stashed_update": 3650,
+                                "z_readded_after_resurrection": 3950, "z_readded_with_stashed_update": 2800,
                                 "z_made_direct_both": 4000, "z_made_direct_only1": 3950, "z_made_direct_only2": 4000,
                                 "z_made_direct_none": 1050, "z_doc_prune_both": 7200, "z_doc_prune-strict_only1": 2950,
                                 "z_doc_prune-strict_only2": 2900, "z_both_node1_d0": 5900, "z_both_node1_d1": 5900,
@@ -169,6 +234,26 @@ PROP = {
                                 "x_layout_d0-older": 3000, "x_layout_d0-newer": 2850, "x_layout_equal": 1050,
                                 "x_valid_applied": 47500, "x_valid_applied_plain": 9250,
                                 "x_valid_applied_dis": 16000, "x_valid_applied_unk": 9000,
-                                "x_valid_applied_dis+unk": 12000, "x_invalid_refused_ok": 97500}},
+                                "x_valid_applied_dis+unk": 12000, "x_invalid_refused_ok": 97500,
+                                # restart dimension + after-restart replay phase (quick floors x 50)
+                                "restarts": 59000, "restarts_catalogue": 11000, "restarts_zombie": 12000,
+                                "restarts_xdir": 15000, "restarts_replay": 12000, "restarts_replay-mid": 5700,
+                                "restarts_db_file_reopened": 29000, "restarts_tiny_reject_cache": 24000,
+                                "restarts_tiny_channel_cache": 22000, "post_restart_deliveries": 710000,
+                                "post_restart_repeated_deliveries": 92000, "post_restart_stale": 170000,
+                                "repeated_stale_deliveries": 57000, "repeated_stale_deliveries_d0": 27000,
+                                "repeated_stale_deliveries_d1": 28000, "repeated_stale_gt_oth_d0": 11000,
+                                "repeated_stale_gt_oth_d1": 14000, "repeated_stale_tiny_reject_cache": 22000,
+                                "stale_after_lookup_after_restart": 140000, "stale_gt_oth_after_lookup_d0": 26000,
+                                "stale_gt_oth_after_lookup_d1": 32000, "stale_on_first_lookup_after_restart": 22000,
+                                "tiny_reject_cache_deliveries": 310000, "tiny_channel_cache_deliveries": 300000,
+                                "scenarios_tiny_caches_from_start": 1400, "r_rounds": 12000, "r_cu": 150000,
+                                "r_items": 75000, "r_items_stale": 23000, "r_items_equal": 9500,
+                                "r_items_fresh": 23000, "r_dup_ca": 17000, "r_na": 11000,
+                                "r_other_channel_lookup": 22000, "r_layout_d0-older": 4700,
+                                "r_layout_d0-newer": 2900, "r_layout_equal": 1600, "r_layout_only0": 1300,
+                                "r_layout_only1": 1100, "r_cu_stale_d0": 20000, "r_cu_stale_d1": 24000,
+                                "r_cu_equal_d0": 9200, "r_cu_equal_d1": 9100, "r_cu_fresh_d0": 25000,
+                                "r_cu_fresh_d1": 22000, "hz_changes_allowed": 150000}},
     }],
 }
